@@ -45,6 +45,7 @@ def unbits(b):
 
 SNIPPET_SRC = '''
 import random
+import itertools
 
 def g_unbound(a, b, count):
     """a local that one path leaves unbound; and / or with an operand that may raise; chained comparison"""
@@ -90,11 +91,40 @@ def g_draws(a, count):
     y = (a if random.random() < x else -a) * x
     yield y
     raise KeyError
+
+def _h_check(lo, hi):
+    """a private helper that only validates"""
+    if hi < lo:
+        raise ValueError('bad %r' % hi)
+
+def _h_step(x, f):
+    if x == 0:
+        x = 1
+    elif x < 1.0:
+        x = x * f
+    return 1 if x > 1.0 else x
+
+def _h_twice(x, f):
+    y = _h_step(x, f)
+    return y * f
+
+def g_helpers(a, b, count):
+    """helpers inlined by the pre-pass (one calling another), `for … in itertools.count()` with a leading break"""
+    _h_check(a, b)
+    x = a
+    for k in itertools.count():
+        if not (count == 'go' or k < count):
+            break
+        yield x
+        x = _h_step(x, b)
+    z = _h_twice(x, b)
+    yield z - random.random()
 '''
 SNIPPET_SPECS = [
     {'qualname': 'g_unbound', 'params': {'a': 'A', 'b': 'A', 'count': 'Count'}},
     {'qualname': 'g_nested', 'params': {'a': 'A', 'b': 'A', 'count': 'Count'}},
     {'qualname': 'g_draws', 'params': {'a': 'A', 'count': 'Count'}},
+    {'qualname': 'g_helpers', 'params': {'a': 'A', 'b': 'A', 'count': 'Count'}},
 ]
 for _s in SNIPPET_SPECS:
     _s.update(module='snippets', lean_name=_s['qualname'], kind='generator', result='A', tie_theorem='-', raises=True)
@@ -123,6 +153,14 @@ REJECT = {
     'while else': 'def f(a):\n    while a < 1.0:\n        a = a * a\n    else:\n        yield a\n',
     'chained comparison with draw': 'def f(a):\n    if 0.0 <= random.random() <= a:\n        yield a\n',
     'count times carrier': 'def f(a, count):\n    yield a * count\n',
+    'helper with an early return': 'def _h(x):\n    if x < 1.0:\n        return x\n    return x * x\n\ndef f(a):\n    y = _h(a)\n    yield y\n',
+    'helper whose value is dropped': 'def _h(x):\n    return x * x\n\ndef f(a):\n    _h(a)\n    yield a\n',
+    'helper reading a global the caller shadows': 'K = 1.0\n\ndef _h(x):\n    return x * K\n\ndef f(a):\n    K = a\n    y = _h(a)\n    yield y * K\n',
+    'public helper': 'def h(x):\n    return x * x\n\ndef f(a):\n    y = h(a)\n    yield y\n',
+    'helper call inside an expression': 'def _h(x):\n    return x * x\n\ndef f(a):\n    yield a - _h(a)\n',
+    'for-count with continue': 'import itertools\n\ndef f(a):\n    for k in itertools.count():\n        if k > 3:\n            break\n        if a < 1.0:\n            continue\n        yield a\n',
+    'for-count without a leading break': 'import itertools\n\ndef f(a):\n    for k in itertools.count():\n        yield a\n',
+    'itertools not imported': 'def f(a):\n    for k in itertools.count():\n        if k > 3:\n            break\n        yield a\n',
 }
 
 
